@@ -46,10 +46,15 @@ class VariableElimination(Inference):
 
         # Factors hash and compare by value: tag every factor with its identity so that
         # value-identical factors (e.g. repeated potentials of a Markov network) stay distinct.
-        working_factors = {
-            node: {(factor, id(factor)) for factor in self.factors[node]}
-            for node in self.factors
-        }
+        working_factors = {}
+        for node in self.factors:
+            occurrences = {}
+            working_factors[node] = set()
+            for factor in self.factors[node]:
+                # (the same object may be listed more than once: count its occurrences)
+                k = occurrences.get(id(factor), 0)
+                occurrences[id(factor)] = k + 1
+                working_factors[node].add((factor, (id(factor), k)))
 
         # Dealing with evidence. Reducing factors over it before VE is run.
         if evidence:
